@@ -22,7 +22,9 @@ open Env
 
 /-- **Every modelled getter returns the supplied field.**  For every environment given to
 `ElementsEnv::new` (transaction, spent outputs, index, control block, script root, annex argument,
-genesis hash) and every query — each of the 12 getters without argument, the 15 `current_*`
+genesis hash) and every query — each of the 14 getters without argument (the relative-lock maxima
+`tx_lock_distance`/`tx_lock_duration` included), the four `check_lock_*` jets for EVERY number they
+may read (success exactly when the number is at most the lock the supplied data imply), the 15 `current_*`
 getters, the 15 `input_*`/issuance getters at EVERY 32-bit index, the 7 `output_*` getters at every
 index, `output_null_datum` at every pair of indices, `tappath` at every 8-bit index, `total_fee`
 for every asset id — the value the jet writes when it reads what `c_env.rs` marshalled
@@ -59,6 +61,12 @@ theorem getter_marshal (q : Query) (e : EnvArgs) : jetC q (cBuild (marshal e)) =
     | txLockTime =>
       simp only [jetC, spec, jet0, spec0, cBuild, lockTimeOf, hfin]
       rfl
+    | txLockDistance =>
+      simp only [jetC, spec, jet0, spec0, cBuild, lockDistanceOf, specRelLock, buildTx, lockRel_marshal]
+      rfl
+    | txLockDuration =>
+      simp only [jetC, spec, jet0, spec0, cBuild, lockDurationOf, specRelLock, buildTx, lockRel_marshal]
+      rfl
   | current g =>
     simp only [jetC, spec, cBuild, marshal, buildTx, EnvArgs.shown, List.getElem?_map, Option.map_map]
     congr 1
@@ -94,6 +102,35 @@ theorem getter_marshal (q : Query) (e : EnvArgs) : jetC q (cBuild (marshal e)) =
       rfl
   | totalFee id =>
     simp only [jetC, spec, cBuild, marshal, buildTx, feeOf_marshal]
+  | checkLock k x =>
+    have hfin : (buildTx (marshal e).tx).isFinal = e.isFinal := by
+      simp only [buildTx, marshal, EnvArgs.isFinal, EnvArgs.shown, List.all_map]
+      congr 1
+      funext p
+      exact seq_final _
+    have hlt : (buildTx (marshal e).tx).lockTime = e.tx.lockTime := rfl
+    have hl : lockOf k (buildTx (marshal e).tx) = specLock k e := by
+      cases k with
+      | height =>
+        simp only [lockOf, specLock, lockHeight, hfin, hlt]
+        split <;> rfl
+      | time =>
+        simp only [lockOf, specLock, lockTimeOf, hfin, hlt]
+        split <;> rfl
+      | distance =>
+        simp only [lockOf, specLock, lockDistanceOf, specRelLock, buildTx, lockRel_marshal]
+        rfl
+      | duration =>
+        simp only [lockOf, specLock, lockDurationOf, specRelLock, buildTx, lockRel_marshal]
+        rfl
+    simp only [jetC, spec, cBuild, hl]
+
+/-- the lock getters are not constant: BIP 68 on concrete sequence numbers (bit 31 disables, bit 22
+selects the kind, the low 16 bits count), and the loop of `mallocTransaction` on three inputs -/
+example : relLock false 0x0001002a = some 42 ∧ relLock true 0x0001002a = none ∧
+    relLock true 0x0040ffff = some 65535 ∧ relLock false 0x80000005 = none ∧
+    [(0x00000007 : UInt32), 0x00400009, 0x00000003].foldl (lockStep false) 0 = 7 ∧
+    [(0x00000007 : UInt32), 0x00400009, 0x00000003].foldl (lockStep true) 0 = 9 := by decide
 
 /-- Under the documented precondition (one spent output per input, in order) the inputs the
 environment shows are exactly the transaction's inputs with their spent outputs: as many, and the
